@@ -1,6 +1,259 @@
-From PK Require Import Base.Bytes Crypto.Padding Crypto.PaddingProofs Crypto.Plan Crypto.Cases.
+(* C06 - cryptographic operations compute what they claim: the theorems.
+   Level: proof (partial).  What is proved is the PLUMBING (which primitive call each parameter tuple
+   selects, in the guard order of CryptographyEngine) and the paddings; the primitives themselves are
+   Section variables of Crypto/PlanProofs.v and Crypto/ConstructionsProofs.v whose laws are hypotheses
+   (they appear below as explicit premises of the closed theorems - nothing is an axiom). *)
+From Coq Require Import ZArith List Bool Lia.
+From PK Require Import Base.Bytes Crypto.Padding Crypto.PaddingProofs Crypto.Plan Crypto.Exec Crypto.Cases Crypto.PlanProofs.
+From PKGen Require Import CryptoTables.
+Import ListNotations.
+Open Scope Z_scope.
 
-(* unpad (pad m) = m : PKCS5/PKCS7 (scheme 0) and ANSI X.923 (scheme 1), every message, every block size *)
+(* ---------------------------------------------------------------- padding_roundtrip (proved outright) *)
+(* scheme 0 = PKCS5/PKCS7, 1 = ANSI X.923; every message, every positive block size (8 and 16 in particular) *)
 Theorem padding_roundtrip : forall s bs m, 0 < bs -> unpad s bs (pad s bs m) = Some m.
 Proof. exact unpad_pad. Qed.
 Print Assumptions padding_roundtrip.
+
+Theorem padding_roundtrip_8_16 : forall s m, unpad s 8 (pad s 8 m) = Some m /\ unpad s 16 (pad s 16 m) = Some m.
+Proof. intros; split; apply unpad_pad; lia. Qed.
+Print Assumptions padding_roundtrip_8_16.
+
+Theorem padded_length_is_block_multiple : forall s bs m, 0 < bs -> zlen (pad s bs m) mod bs = 0 /\ zlen m < zlen (pad s bs m) <= zlen m + bs.
+Proof.
+  intros s bs m H. split; [apply pad_len_mod; auto|]. rewrite pad_len by auto.
+  pose proof (pad_amount_range bs (zlen m) H). lia.
+Qed.
+Print Assumptions padded_length_is_block_multiple.
+
+Example padding_examples :
+  pad 0 8 [1;2;3] = [1;2;3;5;5;5;5;5] /\ pad 1 8 [1;2;3] = [1;2;3;0;0;0;0;5] /\
+  pad 0 8 [1;2;3;4;5;6;7;8] = [1;2;3;4;5;6;7;8;8;8;8;8;8;8;8;8] /\
+  unpad 0 8 [1;2;3;5;5;5;5;4] = None /\ unpad 1 8 [1;2;3;0;0;1;0;5] = None /\ unpad 0 8 [] = None.
+Proof. vm_compute. repeat split. Qed.
+
+(* ---------------------------------------------------------------- decrypt_inverts_encrypt *)
+(* The laws of the abstract cipher are PREMISES (the Section hypotheses of PlanProofs.v):
+     urandom n has n bytes; ciphertext length = data length; the GCM tag has 16 bytes;
+     the library decryptor inverts the library encryptor under the same algorithm, key, mode, IV, AAD
+     (and, for GCM, any truncation of the tag to t >= 4 bytes).
+   Conclusion: for EVERY parameter tuple and message on which Encrypt succeeds, Decrypt with the same
+   parameters, the IV that Encrypt used (supplied, or generated and returned) and the tag it returned
+   yields the message. *)
+Theorem decrypt_inverts_encrypt :
+  forall (E : Z -> bytes -> Z -> option bytes -> option bytes -> bytes -> bytes * bytes)
+         (Dp : Z -> bytes -> Z -> option bytes -> option bytes -> option bytes -> bytes -> option bytes)
+         (urandom : Z -> bytes),
+    (forall n, 0 <= n -> zlen (urandom n) = n) ->
+    (forall a k m iv aad d, zlen (fst (E a k m iv aad d)) = zlen d) ->
+    (forall a k iv aad d, zlen (snd (E a k BCM_GCM iv aad d)) = 16) ->
+    (forall a k m iv aad d, m <> BCM_GCM -> Dp a k m iv aad None (fst (E a k m iv aad d)) = Some d) ->
+    (forall a k iv aad d t, 4 <= t ->
+        Dp a k BCM_GCM iv aad (Some (firstn (Z.to_nat t) (snd (E a k BCM_GCM iv aad d)))) (fst (E a k BCM_GCM iv aad d)) = Some d) ->
+    forall a key mode padm iv aad taglen msg out,
+      do_encrypt E urandom a key mode padm iv aad taglen msg = ROk out ->
+      do_decrypt Dp urandom a key mode padm
+                 (match eo_iv out with Some v => Some v | None => iv end) aad (eo_tag out) (eo_ct out) = ROk msg.
+Proof. exact decrypt_inverts_encrypt_sym. Qed.
+Print Assumptions decrypt_inverts_encrypt.
+
+(* plan level, no law needed except the length of urandom's result being irrelevant here *)
+Theorem decrypt_plan_is_inverse_of_encrypt_plan :
+  forall urandom a key mode padm iv aad taglen sp tagv,
+    sym_plan_of false a key mode padm iv aad taglen None = Ok sp ->
+    (p_gcm sp = true -> is_some tagv = true) ->
+    sym_plan_of true a key mode padm
+                (match iv_returned urandom (p_mode sp) with Some v => Some v | None => iv end) aad None tagv
+    = Ok (inv_plan urandom sp tagv).
+Proof. exact decrypt_plan_is_inverse_plan. Qed.
+Print Assumptions decrypt_plan_is_inverse_of_encrypt_plan.
+
+(* non-vacuity: the premises are jointly satisfiable (toy primitives) and Encrypt succeeds on real tuples *)
+Definition toyE (a : Z) (k : bytes) (m : Z) (iv aad : option bytes) (d : bytes) : bytes * bytes := (d, repeat 0 16).
+Definition toyD (a : Z) (k : bytes) (m : Z) (iv aad tag : option bytes) (ct : bytes) : option bytes := Some ct.
+Definition toyR (n : Z) : bytes := repeat 7 (Z.to_nat n).
+Definition key16 : bytes := repeat 1 16.
+
+Example premises_satisfiable :
+  (forall n, 0 <= n -> zlen (toyR n) = n) /\
+  (forall a k m iv aad d, zlen (fst (toyE a k m iv aad d)) = zlen d) /\
+  (forall a k iv aad d, zlen (snd (toyE a k BCM_GCM iv aad d)) = 16) /\
+  (forall a k m iv aad d, m <> BCM_GCM -> toyD a k m iv aad None (fst (toyE a k m iv aad d)) = Some d) /\
+  (forall a k iv aad d t, 4 <= t ->
+      toyD a k BCM_GCM iv aad (Some (firstn (Z.to_nat t) (snd (toyE a k BCM_GCM iv aad d)))) (fst (toyE a k BCM_GCM iv aad d)) = Some d).
+Proof.
+  repeat split; auto.
+  intros n H. unfold toyR, zlen. rewrite repeat_length. lia.
+Qed.
+
+Example encrypt_accepts_cbc_fresh_iv :   (* AES-128 CBC PKCS5, no IV supplied: 16 fresh bytes, returned *)
+  do_encrypt toyE toyR CA_AES key16 (Some BCM_CBC) (Some PM_PKCS5) None None None [1;2;3]
+  = ROk (mkOut (pad 0 16 [1;2;3]) (Some (repeat 7 16)) None).
+Proof. vm_compute. reflexivity. Qed.
+
+Example encrypt_accepts_gcm :            (* AES-128 GCM, 12-byte IV, AAD, tag length 12 *)
+  do_encrypt toyE toyR CA_AES key16 (Some BCM_GCM) None (Some (repeat 9 12)) (Some [5;5]) (Some 12) [1;2;3]
+  = ROk (mkOut [1;2;3] None (Some (repeat 0 12))).
+Proof. vm_compute. reflexivity. Qed.
+
+Example encrypt_rejections :
+  do_encrypt toyE toyR CA_AES key16 (Some BCM_CBC) None None None None [1] = RErr InvalidField /\            (* padding required *)
+  do_encrypt toyE toyR CA_AES key16 (Some BCM_CBC) (Some PM_PKCS5) None (Some [1]) None [1] = RErr InvalidField /\   (* AAD outside GCM *)
+  do_encrypt toyE toyR CA_AES key16 (Some BCM_GCM) None None None None [1] = RErr InvalidField /\            (* GCM without tag length *)
+  do_encrypt toyE toyR CA_AES [1;2;3] (Some BCM_CBC) (Some PM_PKCS5) None None None [1] = RErr CryptographicFailure /\
+  do_encrypt toyE toyR CA_AES key16 (Some BCM_CBC) (Some PM_PKCS5) (Some [1;2;3]) None None [1] = RCrash /\   (* wrong IV length: the library raises, not a KMIP error *)
+  do_encrypt toyE toyR CA_AES key16 (Some BCM_GCM) None (Some (repeat 9 12)) None (Some 3) [1] = RCrash.      (* tag length < 4: likewise *)
+Proof. vm_compute. repeat split. Qed.
+
+(* ---------------------------------------------------------------- gcm_plumbs_tag_and_aad *)
+Theorem gcm_plumbs_tag_and_aad :
+  forall dec a key padm iv aad taglen tag sp,
+    a <> CA_RC4 ->
+    sym_plan_of dec a key (Some BCM_GCM) padm iv aad taglen tag = Ok sp ->
+    p_aad sp = aad /\ p_gcm sp = true /\ p_pad sp = PNone /\ p_key sp = key /\
+    (dec = false -> exists s t, taglen = Some t /\ p_mode sp = MGCM s None t /\
+                                (s = match iv with Some v => IVGiven v | None => IVFresh (p_block sp) end)) /\
+    (dec = true -> exists v t, iv = Some v /\ tag = Some t /\ p_mode sp = MGCM (IVGiven v) (Some t) (zlen t)).
+Proof. exact gcm_plan. Qed.
+Print Assumptions gcm_plumbs_tag_and_aad.
+
+Theorem aad_accepted_only_in_gcm :
+  forall dec a key mode padm iv aad taglen tag sp,
+    sym_plan_of dec a key mode padm iv aad taglen tag = Ok sp -> is_some aad = true -> mode = Some BCM_GCM.
+Proof. exact aad_only_in_gcm. Qed.
+Print Assumptions aad_accepted_only_in_gcm.
+
+(* a plaintext is released only after the primitive accepted exactly the supplied (iv, aad, tag, ciphertext):
+   whatever authenticity the primitive provides is not weakened by the plumbing *)
+Theorem gcm_decrypt_releases_only_authenticated :
+  forall Dp urandom a key padm iv aad tag ct m,
+    a <> CA_RC4 ->
+    do_decrypt Dp urandom a key (Some BCM_GCM) padm iv aad tag ct = ROk m ->
+    Dp a key BCM_GCM iv aad tag ct = Some m.
+Proof. exact gcm_decrypt_authenticates. Qed.
+Print Assumptions gcm_decrypt_releases_only_authenticated.
+
+Example gcm_plan_example :
+  sym_plan_of true CA_AES key16 (Some BCM_GCM) None (Some (repeat 9 12)) (Some [5;5]) None (Some (repeat 3 12))
+  = Ok (mkSym CA_AES key16 (MGCM (IVGiven (repeat 9 12)) (Some (repeat 3 12)) 12) PNone 16 (Some [5;5]) true).
+Proof. vm_compute. reflexivity. Qed.
+
+(* ---------------------------------------------------------------- verify_plan_matches_sign_plan *)
+(* Whatever hash and padding Sign selects, SignatureVerify with the same parameters selects the same -
+   or refuses with InvalidField when a digital signature algorithm is given TOGETHER with a different
+   separate hash / algorithm (Sign silently prefers the digital signature algorithm; quirk, see notes). *)
+Theorem verify_plan_matches_sign_plan :
+  forall p sp, sign_plan p = Ok sp -> lib_sign_ok sp = true ->
+               verify_plan p = Ok sp \/ (verify_plan p = Err InvalidField /\ dsa_inconsistent p).
+Proof. exact verify_matches_sign. Qed.
+Print Assumptions verify_plan_matches_sign_plan.
+
+Theorem dsa_and_separate_parameters_select_the_same_plan :
+  forall d h hv padm loads a0 h0,
+    assoc d dsa_algs = Some (h, CA_RSA) -> assoc hv enc_hashes = Some h ->
+    sign_plan (mkSig (Some d) a0 h0 padm loads) = sign_plan (mkSig None (Some CA_RSA) (Some hv) padm loads) /\
+    verify_plan (mkSig (Some d) None None padm loads) = verify_plan (mkSig None (Some CA_RSA) (Some hv) padm loads).
+Proof. intros. split; [eapply sign_dsa_eq_separate|eapply verify_dsa_eq_separate]; eauto. Qed.
+Print Assumptions dsa_and_separate_parameters_select_the_same_plan.
+
+Example sign_verify_examples :
+  (* SHA256_WITH_RSA_ENCRYPTION (5) + PSS  ==  RSA + SHA_256 (6) + PSS : hash id 4, PSS *)
+  sign_plan (mkSig (Some 5) None None (Some PM_PSS) true) = Ok (mkSigPlan (Some 4) SPSS) /\
+  verify_plan (mkSig (Some 5) None None (Some PM_PSS) true) = Ok (mkSigPlan (Some 4) SPSS) /\
+  sign_plan (mkSig None (Some CA_RSA) (Some 6) (Some PM_PSS) true) = Ok (mkSigPlan (Some 4) SPSS) /\
+  (* the quirk: dsa says SHA-256, separate hash says SHA-1 (4): Sign signs with SHA-256, Verify refuses *)
+  sign_plan (mkSig (Some 5) None (Some 4) (Some PM_PKCS1v15) true) = Ok (mkSigPlan (Some 4) SPKCS1) /\
+  verify_plan (mkSig (Some 5) None (Some 4) (Some PM_PKCS1v15) true) = Err InvalidField /\
+  (* unsupported separate hash (MD2 = 1): Sign reaches hash_alg() on None (non-KMIP TypeError, left to C13) *)
+  sign_plan (mkSig None (Some CA_RSA) (Some 1) (Some PM_PKCS1v15) true) = Ok (mkSigPlan None SPKCS1) /\
+  verify_plan (mkSig None (Some CA_RSA) (Some 1) (Some PM_PKCS1v15) true) = Err CryptographicFailure.
+Proof. vm_compute. repeat split. Qed.
+
+(* ---------------------------------------------------------------- derived_length_exact *)
+Theorem derived_length_exact :
+  forall len out d, 0 <= len -> derive_finish len out = Ok d -> zlen d = len /\ exists rest, out = d ++ rest.
+Proof. intros. split; [eapply derive_finish_exact|eapply derive_finish_prefix]; eauto. Qed.
+Print Assumptions derived_length_exact.
+
+Theorem derived_too_short_is_cryptographic_failure :
+  forall len out, zlen out < len -> derive_finish len out = Err CryptographicFailure.
+Proof. exact derive_finish_short. Qed.
+Print Assumptions derived_too_short_is_cryptographic_failure.
+
+Theorem derive_plans_carry_requested_length :
+  forall p dp, derive_plan p = Ok dp ->
+    match dp with
+    | DHkdf _ len _ _ _ | DPbkdf2 _ len _ _ _ | DKbkdf _ len _ _ => len = d_len p
+    | _ => True
+    end.
+Proof. exact derive_plan_len. Qed.
+Print Assumptions derive_plans_carry_requested_length.
+
+(* the derivation table as the code has it: HMAC -> HKDF(salt, info = derivation data); HASH -> digest of exactly
+   one of data / key; PBKDF2; NIST800_108_C -> KBKDF-HMAC counter mode over the derivation data; ENCRYPT -> encrypt() *)
+Theorem derivation_table :
+  forall p hv h, d_hash p = Some hv -> assoc hv enc_hashes = Some h ->
+  (d_method p = Some DM_HMAC -> derive_plan p = Ok (DHkdf h (d_len p) (d_salt p) (d_data p) (d_key p))) /\
+  (d_method p = Some DM_NIST800_108_C -> derive_plan p = Ok (DKbkdf h (d_len p) (d_data p) (d_key p))) /\
+  (d_method p = Some DM_HASH -> forall x, d_data p = Some x -> d_key p = None -> derive_plan p = Ok (DHash h x)) /\
+  (d_method p = Some DM_HASH -> forall x, d_data p = None -> d_key p = Some x -> derive_plan p = Ok (DHash h x)) /\
+  (d_method p = Some DM_HASH -> forall x y, d_data p = Some x -> d_key p = Some y -> derive_plan p = Err InvalidField) /\
+  (d_method p = Some DM_PBKDF2 -> forall s it, d_salt p = Some s -> d_iter p = Some it ->
+      derive_plan p = Ok (DPbkdf2 h (d_len p) s it (d_key p))).
+Proof. exact derive_table. Qed.
+Print Assumptions derivation_table.
+
+Theorem derivation_encrypt_is_the_symmetric_path :
+  forall p, d_method p = Some DM_ENCRYPT ->
+  derive_plan p =
+  match encrypt_plan (mkEnc (d_alg p) (match d_key p with Some k => k | None => [] end) (d_key_loads p)
+                            (d_mode p) (d_pad p) (d_iv p) None None None None) with
+  | Err e => Err e | Ok c => Ok (DEncrypt c) end.
+Proof. exact derive_encrypt_is_encrypt. Qed.
+Print Assumptions derivation_encrypt_is_the_symmetric_path.
+
+Example derive_examples :
+  derive_finish 4 [1;2;3;4;5;6] = Ok [1;2;3;4] /\ derive_finish 7 [1;2;3;4;5;6] = Err CryptographicFailure /\
+  derive_plan (mkDer (Some DM_HMAC) 16 (Some [1]) (Some [2]) (Some 6) (Some [3]) None None None None None false)
+    = Ok (DHkdf 4 16 (Some [3]) (Some [1]) (Some [2])) /\
+  derive_plan (mkDer (Some DM_PBKDF2) 16 None (Some [2]) (Some 6) None (Some 3) None None None None false) = Err InvalidField.
+Proof. vm_compute. repeat split. Qed.
+
+(* ---------------------------------------------------------------- rejects_or_plans *)
+(* Every parameter tuple yields a KMIP error class or a plan - the model has no third outcome.  Where the
+   Python can leave with a non-KMIP exception (wrong IV length, cipher/mode pairs OpenSSL rejects, GCM tag
+   length < 4, hash_alg() on None, HKDF/PBKDF2/KBKDF with missing key material, invalid padding bytes,
+   InvalidTag) the model yields a plan on which lib_*_ok is false; judging that outcome is C13's concern. *)
+Theorem rejects_or_plans :
+  (forall dec p, (exists e, crypt_plan_of dec p = Err e) \/ (exists pl, crypt_plan_of dec p = Ok pl)) /\
+  (forall p, (exists e, sign_plan p = Err e) \/ (exists pl, sign_plan p = Ok pl)) /\
+  (forall p, (exists e, verify_plan p = Err e) \/ (exists pl, verify_plan p = Ok pl)) /\
+  (forall a k, (exists e, mac_plan_of a k = Err e) \/ (exists pl, mac_plan_of a k = Ok pl)) /\
+  (forall p, (exists e, derive_plan p = Err e) \/ (exists pl, derive_plan p = Ok pl)) /\
+  (forall m a k kek, (exists e, wrap_plan_of m a k kek = Err e) \/ (exists pl, wrap_plan_of m a k kek = Ok pl)) /\
+  (forall a l, (exists e, create_sym_plan a l = Err e) \/ (exists pl, create_sym_plan a l = Ok pl)) /\
+  (forall a l, (exists e, create_pair_plan a l = Err e) \/ (exists pl, create_pair_plan a l = Ok pl)).
+Proof. repeat split; intros; apply res_total. Qed.
+Print Assumptions rejects_or_plans.
+
+(* the accepted set of _encrypt_symmetric written declaratively; the equivalence with sym_plan_of is
+   NOT proved yet (the case split is large) - kept visible as a statement, tested by the grid *)
+Definition sym_accepts_enc_statement : Prop :=
+  forall a key mode padm iv aad taglen,
+    (exists sp, sym_plan_of false a key mode padm iv aad taglen None = Ok sp) <-> sym_accepts_enc a key mode padm aad taglen = true.
+
+(* created key material: exactly the requested length, from os.urandom *)
+Theorem created_key_length_exact :
+  forall alg len pl, create_sym_plan alg len = Ok pl -> exists n, pl = KFresh alg n /\ n = len / 8.
+Proof.
+  unfold create_sym_plan. intros alg len pl H.
+  destruct (assoc alg sym_algs) as [[b ks]|]; try discriminate.
+  destruct (memZ len ks); try discriminate. injection H as <-. eauto.
+Qed.
+Print Assumptions created_key_length_exact.
+
+(* key sizes of the generated table are whole bytes, so 8 * (len / 8) = len for every accepted length *)
+Theorem accepted_key_sizes_are_whole_bytes :
+  forallb (fun e : Z * (Z * list Z) => forallb (fun k => (k mod 8 =? 0) && (0 <? k)) (snd (snd e))) sym_algs = true.
+Proof. vm_compute. reflexivity. Qed.
+Print Assumptions accepted_key_sizes_are_whole_bytes.
